@@ -523,7 +523,7 @@ def gen_cases(rng, tier):
     quick = tier == "quick"
     files = shipped()
     cases = []
-    n_tok, n_v2gen, n_v2file, n_v1gen, n_v1file, n_err, n_fmt = (700, 500, 500, 200, 300, 900, 300) if quick else (20000, 15000, 15000, 5000, 8000, 36000, 6000)
+    n_tok, n_v2gen, n_v2file, n_v1gen, n_v1file, n_err, n_fmt = (700, 500, 500, 200, 300, 900, 300) if quick else (8000, 6000, 3500, 2000, 1500, 12000, 3000)
     for _ in range(n_tok):
         cases.append({"kind": "tok", "lines": gen_tok_lines(rng), "edits": [gen_edit_v2(rng)]})
     for _ in range(n_v2gen):
@@ -710,12 +710,23 @@ def sweep_file(content, version):
             variants.append({"op": "trail", "at": at, "ws": "  "})
             variants.append({"op": "comment", "at": at, "gap": " ", "text": "# c"})
         variants += [{"op": "scale", "k": 2}, {"op": "scale", "k": 3}]
+        nl_idx = [i for i, p in enumerate(pieces) if p[0] == "n"]
         for e in variants:
             t = render(apply_edit_v2(pieces, e))[:-1]
             r = parse_real(t, version)
             res["tried"] += 1
-            if r.get("ok") != base["ok"] and res["bad"] is None:
-                res["bad"] = {"edit": e, "east": {k: v for k, v in r.items() if k != "ok"}}
+            if r.get("ok") != base["ok"]:
+                b = {"edit": e, "east": {k: v for k, v in r.items() if k != "ok"}}
+                if e["op"] == "comment":
+                    j = nl_idx[e["at"]] - 1
+                    while j >= 0 and pieces[j][0] == "s":
+                        j -= 1
+                    if j >= 0 and pieces[j][0] == "t" and pieces[j][1] in ("LONG_STRING", "DOT"):
+                        # the structural class of the open finding eol-comment-pre-expansion-v2: kept apart so that it cannot hide another one
+                        res.setdefault("known_bad", b)
+                        continue
+                if res["bad"] is None:
+                    res["bad"] = b
     else:
         safe, trail_ok = v1_boundaries(content)
         for at in range(len(safe)):
@@ -1115,8 +1126,9 @@ def compare(case, obs, mouts):
 def oracle(case, obs):
     k = case["kind"]
     if obs.get("sweep"):
-        if obs.get("bad"):
-            return f"single-line layout edit {json.dumps(obs['bad']['edit'])} changes what the shipped file parses to: {json.dumps(obs['bad']['east'])[:200]}"
+        b = obs.get("bad") or obs.get("known_bad")
+        if b:
+            return f"single-line layout edit {json.dumps(b['edit'])} changes what the shipped file parses to: {json.dumps(b['east'])[:200]}"
         return None
     if k == "tok":
         if obs.get("seg_problem") or "stream" not in obs or not obs.get("reseg_same"):
@@ -1183,6 +1195,8 @@ def _last_line_is_bodyless_define(content):
 
 def signature(case, obs, msg):
     k = case["kind"]
+    if obs.get("sweep"):
+        return "eol-comment-pre-expansion-v2" if obs.get("known_bad") and not obs.get("bad") else None
     if k in ("err", "fmt") and obs.get("outcome") == "raised":
         if obs.get("site") == "format_colang_parsing_error_message" and obs.get("cls") in ("AttributeError", "TypeError", "IndexError"):
             return "error-formatter-attribute-assumption"
@@ -1201,7 +1215,7 @@ def signature(case, obs, msg):
                     return "trailing-tab-v2"
             elif obs.get("east", {}).get("exc") == "UnexpectedCharacters" and "No terminal matches '\t'" in obs["east"].get("msg", ""):
                 return "trailing-tab-v2"
-        if k != "tok" and "ok" not in obs.get("east", {"ok": 1}) and _comment_after_long_string(obs, edits):
+        if k != "tok" and _comment_after_long_string(obs, edits):
             return "eol-comment-pre-expansion-v2"
     return None
 
